@@ -142,7 +142,7 @@ def repeated_leaf_text_cases(rng, _n):
     cases = []
     k = 0
     leaves = [("> 5", [("5", 5)], lambda x: x > 5), ("1", [("1", 1)], lambda x: x == 1), ("== 7", [("7", 7)], lambda x: x == 7),
-              ("2..=4", [("2", 2), ("4", 4)], lambda x: 2 <= x <= 4), ("!= 0", [("0", 0)], lambda x: x != 0)]
+              ("2..=4", "(r %s (int 2) (int 4) true)" % tgen.hexs("2..=4"), lambda x: 2 <= x <= 4), ("!= 0", [("0", 0)], lambda x: x != 0)]
     for leaf, lits, ok in leaves:
         good = next(x for x in (9, 1, 7, 3) if ok(x))
         bad = next(x for x in (0, 5, 8, 1) if not ok(x))
@@ -170,7 +170,7 @@ def repeated_leaf_text_cases(rng, _n):
                     k += 1
                     c.forms = {"repeated-leaf-text": 1}
                     c.perturbed = mask != 0
-                    c.meanings = "(meanings %s)" % " ".join(["(v %s (int %d))" % (tgen.hexs(t), v) for t, v in lits] + ["(v %s %s)" % (tgen.hexs(t), v) for t, v in extra])
+                    c.meanings = "(meanings %s)" % " ".join(([lits] if isinstance(lits, str) else ["(v %s (int %d))" % (tgen.hexs(t), v) for t, v in lits]) + ["(v %s %s)" % (tgen.hexs(t), v) for t, v in extra])
                     t3.finish_case(c, "", ty, vt, sx, pat)
                     cases.append(c)
     return cases
@@ -357,6 +357,37 @@ def regex_feature_cases(rng, _n):
             t3.finish_case(c, "#[derive(Debug)] pub struct RX { pub s: String }", "RX", "RX { s: %s.to_string() }" % tgen.rust_str(val.replace("\\n", "\n").replace("\\t", "\t")),
                            "(adt %s (names %s) (vals (str %s)))" % (tgen.hexs("RX"), tgen.hexs("s"), tgen.hexs(val.replace("\\n", "\n").replace("\\t", "\t"))), pt)
             cases.append(c)
+    return cases
+
+
+def regex_history_cases(rng, _n):
+    """A regex literal evaluated again AFTER many other distinct regex literals on the same thread (0, 15, 16, 17, 40 of them), in
+    several positions, on a matching and on a non-matching value: the verdict is the regex's own answer whatever was compiled
+    before (a cache of compiled regexes with eviction, keyed by text or by slot, is wrong only after enough other patterns)."""
+    import tgen
+    cases = []
+    k = 0
+    decl = "#[derive(Debug)] pub struct RX { pub s: String, pub o: Option<String>, pub xs: Vec<String>, pub t: (String, i32) }"
+    positions = [("RX { s: =~ %s, .. }", "field"), ("RX { o: Some(=~ %s), .. }", "variant"), ("RX { xs: [=~ %s, ..], .. }", "slice"), ("RX { t: (=~ %s, _), .. }", "tuple"),
+                 ("RX { xs: #(=~ %s, ..), .. }", "set"), ("RX { s.clone(): =~ %s, .. }", "method"), ("_ { s: =~ %s, .. }", "wildcard-struct")]
+    pat = "^al.ce$"
+    for nother in (0, 15, 16, 17, 40):
+        prior = 'assert_struct!("alice".to_string(), =~ r"%s"); ' % pat + " ".join('assert_struct!("w%dx".to_string(), =~ r"^w%d.$");' % (i, i) for i in range(nother))
+        for templ, pos in positions:
+            for val, want in (("alice", True), ("alicia", False)):
+                c = t3.Case()
+                c.id = k
+                k += 1
+                c.forms = {"regex-after-history": 1}
+                c.perturbed = not want
+                c.meanings = "(meanings (p %s (const %s)) (m %s %s))" % (tgen.hexs(pat), "true" if want else "false", tgen.hexs("clone"), tgen.hexs("id"))
+                vs = "(str %s)" % tgen.hexs(val)
+                t3.finish_case(c, decl, "RX", 'RX { s: "%s".to_string(), o: Some("%s".to_string()), xs: vec!["%s".to_string()], t: ("%s".to_string(), 1) }' % (val, val, val, val),
+                               "(adt %s (names %s %s %s %s) (vals %s (adt %s (names) (vals %s)) (seq %s) (tuple %s (int 1))))" % (
+                                   tgen.hexs("RX"), tgen.hexs("s"), tgen.hexs("o"), tgen.hexs("xs"), tgen.hexs("t"), vs, tgen.hexs("Some"), vs, vs, vs),
+                               templ % ('r"%s"' % pat))
+                c.setup = prior
+                cases.append(c)
     return cases
 
 
@@ -820,6 +851,7 @@ def check(ck, aspect, theorems, t2_parts=("body", "status")):
                                 ("range-boundary", range_boundary_cases, "integer and float ranges against values at and next to every bound"),
                                 ("light-composite-siblings", light_composite_cases, "composites that generate little or no code (`#()`, `#(..)`, `[]`, `#{..}`, `(_, _)`, `_`) before and after failing siblings"),
                                 ("long-non-ascii-values", long_value_cases, "elements with long non-ASCII Debug texts rejected by set probes on the passing path, and failing a leaf"),
+                                ("regex-after-history", regex_history_cases, "a regex literal evaluated again after 0 / 15 / 16 / 17 / 40 other distinct regex literals on the same thread, in 7 positions"),
                                 ("repeated-leaf-text", repeated_leaf_text_cases, "sibling sub-patterns with textually identical leaves in maps / tuples / slices: the first, a later one or both fail"),
                                 ("set-size-boundary", set_size_boundary_cases, "set patterns on collections of 31-33, 63-65, 127-129, 255-257 elements: needed matches at the first, last and word-boundary positions"),
                                 ("c10-macro", set_palette_cases, "set patterns from a palette of element patterns over every listed order of small collections")):
